@@ -38,6 +38,8 @@ def extract(repo=REPO, all_targets=False):
     key = repo_hash(repo, 'all-targets' if all_targets else 'default')
     d = os.path.join(CACHE, 'facts-' + key)
     if os.path.isdir(d) and os.path.exists(os.path.join(d, 'OK')):
+        try: os.utime(d, None)            # mark as in use (pruning skips recently used entries)
+        except OSError: pass
         return d, True
     os.makedirs(CACHE, exist_ok=True)
     tmp = tempfile.mkdtemp(prefix='facts-tmp-', dir=CACHE)
@@ -57,10 +59,18 @@ def extract(repo=REPO, all_targets=False):
         os.rename(tmp, d)
     except OSError:
         shutil.rmtree(tmp, ignore_errors=True)   # lost a race; the other copy is equivalent
-    # prune old cache entries (keep the 6 most recent)
-    ents = sorted((os.path.join(CACHE, x) for x in os.listdir(CACHE) if x.startswith('facts-') and not x.startswith('facts-tmp')), key=os.path.getmtime)
-    for old in ents[:-6]:
-        shutil.rmtree(old, ignore_errors=True)
+    # prune cache entries: never one used in the last two hours (a concurrent check may be reading it), and keep the 6 most recent
+    now = time.time()
+    ents = sorted((os.path.join(CACHE, x) for x in os.listdir(CACHE) if x.startswith('facts-')), key=lambda q: os.path.getmtime(q) if os.path.exists(q) else 0)
+    done = [x for x in ents if not os.path.basename(x).startswith('facts-tmp')]
+    for old in done[:-6]:
+        try:
+            if now - os.path.getmtime(old) > 7200: shutil.rmtree(old, ignore_errors=True)
+        except OSError: pass
+    for old in ents:
+        try:
+            if os.path.basename(old).startswith('facts-tmp') and now - os.path.getmtime(old) > 7200: shutil.rmtree(old, ignore_errors=True)
+        except OSError: pass
     return d, False
 
 class Violation:
